@@ -24,7 +24,8 @@
         → `hold_starts` (slot 6 := new state, timer armed at now + minimum time),
           `hold_persists` (timed invariant over any event sequence that stays
           below priority 6 and before the deadline), `min_on_hold` /
-          `min_off_hold` (the two combined), `hold_released` (what the timer does)
+          `min_off_hold` (the two combined), `hold_released` (what the timer does),
+          `second_fire_quiescent` (the release cascade stops after two firings)
   * the re-entrant `WriteProperty(…, priority=6)` never nests deeper than once:
         `wp_fuel_irrelevant` (so the `recursion` answer of the fuel-0 case is unreachable
         from `step`, which starts with depth 8)
@@ -878,6 +879,76 @@ theorem hold_released (cfg : Cfg V) (s : St V) (t dl : Nat)
           | none =>
             right
             refine ⟨hw, by simp, d, hdel, rfl⟩
+
+theorem setSlot_setSlot (f : Nat → Option V) (i : Nat) (x y : Option V) :
+    setSlot (setSlot f i x) i y = setSlot f i y := by
+  funext j
+  by_cases h : j = i <;> simp [setSlot, h]
+
+/-- the only way an accepted write arms the timer: the hold branch -/
+theorem accept_arms (cfg : Cfg V) (s0 : St V) (i : Nat) (x : Option V) (dl2 : Nat)
+    (h0 : s0.deadline = none) (hd2 : (accept cfg s0 i x).1.deadline = some dl2) :
+    ∃ d, accept cfg s0 i x =
+      ({ slots := setSlot (setSlot s0.slots i x) 6 (some (winner cfg (setSlot s0.slots i x))),
+         present := winner cfg (setSlot s0.slots i x),
+         now := s0.now,
+         deadline := some (s0.now + 1000000 * (d + 1)) }, none) := by
+  revert hd2
+  unfold accept
+  simp only []
+  by_cases hw : winner cfg (setSlot s0.slots i x) = s0.present
+  · simp [hw, h0]
+  · simp only [hw, if_false]
+    by_cases hm : cfg.minOnOff = false
+    · simp [hm, h0]
+    · simp only [hm]
+      cases holdDelay cfg (winner cfg (setSlot s0.slots i x)) with
+      | none => simp [h0]
+      | some d =>
+        cases d with
+        | zero => simp [h0]
+        | succ d =>
+          simp only []
+          cases cfg.check (winner cfg (setSlot s0.slots i x)) with
+          | some e => simp [h0]
+          | none => intro _; exact ⟨d, rfl⟩
+
+/-- **the release cascade stops after two firings**: if the tick that releases slot 6
+    changes the present value and thereby starts a hold for the new state, the tick
+    that ends *that* hold finds the present value already equal to the winner —
+    slot 6 is released for good, no timer is left, the present value stays (no
+    commands in between) -/
+theorem second_fire_quiescent (cfg : Cfg V) (s : St V) (t1 t2 dl dl2 : Nat)
+    (hd : s.deadline = some dl) (hdl : dl ≤ max s.now t1)
+    (hd2 : (step cfg s (.tick t1)).1.deadline = some dl2)
+    (hdl2 : dl2 ≤ max (step cfg s (.tick t1)).1.now t2) :
+    let r := step cfg (step cfg s (.tick t1)).1 (.tick t2)
+    r.1.slots 6 = none ∧ r.1.deadline = none ∧ r.2 = none ∧
+    r.1.present = (step cfg s (.tick t1)).1.present := by
+  have h1 : step cfg s (.tick t1) =
+      accept cfg { s with now := max s.now t1, deadline := none } 6 none := by
+    rw [step_tick, hd]; simp [hdl]
+  rw [h1] at hd2 hdl2 ⊢
+  obtain ⟨d, ha⟩ := accept_arms cfg { s with now := max s.now t1, deadline := none } 6 none dl2 rfl hd2
+  rw [ha] at hd2 hdl2 ⊢
+  simp only [] at hd2 hdl2 ⊢
+  have hd2' : max s.now t1 + 1000000 * (d + 1) = dl2 := by simpa using hd2
+  have hfire : max s.now t1 + 1000000 * (d + 1) ≤ max (max s.now t1) t2 := by omega
+  rw [step_tick]
+  simp only [hfire, if_true]
+  have hacc : accept cfg
+      ({ slots := setSlot (setSlot s.slots 6 none) 6 (some (winner cfg (setSlot s.slots 6 none))),
+         present := winner cfg (setSlot s.slots 6 none),
+         now := max (max s.now t1) t2,
+         deadline := none } : St V) 6 none =
+      ({ slots := setSlot s.slots 6 none,
+         present := winner cfg (setSlot s.slots 6 none),
+         now := max (max s.now t1) t2,
+         deadline := none }, none) := by
+    unfold accept
+    simp [setSlot_setSlot]
+  rw [hacc]
+  simp
 
 /-- non-vacuity (and the repaired direction of the two times): minimumOnTime 10 s,
     minimumOffTime 3 s; an *active* command at priority 8 is held 10 s — still held
